@@ -32,7 +32,7 @@ def run_one(patch, scratch_root):
     scratch = tempfile.mkdtemp(prefix="verif-mut-", dir=scratch_root)
     res = {"patch": os.path.relpath(patch, harness.VERIF), "property": pid, "expect": m.get("expect", "")}
     try:
-        subprocess.run(["rsync", "-a", "--exclude", "target", "--exclude", ".git", harness.REPO + "/", scratch + "/"], check=True)
+        subprocess.run(["rsync", "-rlp", "--exclude", "target", "--exclude", ".git", harness.REPO + "/", scratch + "/"], check=True)
         r = subprocess.run(["patch", "-p1", "--no-backup-if-mismatch", "-s", "-i", patch], cwd=scratch, stdout=subprocess.PIPE, stderr=subprocess.STDOUT, text=True)
         if r.returncode != 0:
             res["status"] = "skipped (tree differs)"
